@@ -682,8 +682,8 @@ func (ex *Exec) useAxiom(cl *Clause, env *Env, pc string) {
 	name := id.(*CIdent).Name
 	var ax *Lemma
 	for _, a := range ex.eng.CS.Axioms {
-		if a.Name == name {
-			ax = a
+		if a.Name == name && (ax == nil || (env.pkg != nil && a.Pkg == env.pkg.Path())) {
+			ax = a // an axiom of the package of the function under contract wins over a namesake elsewhere
 		}
 	}
 	if ax == nil {
@@ -1077,4 +1077,23 @@ func (em *Emitter) implFact(it types.Type, tag int, t types.Type) {
 	}
 	em.global(fmt.Sprintf("(declare-fun impl_%s (Int) Bool)", typeName(it)))
 	em.global(fmt.Sprintf("(assert (= (impl_%s %d) %s))", typeName(it), tag, v))
+}
+
+// deepUnalias replaces aliases by the types they stand for, also under pointers, slices, arrays, maps and channels
+// (*typeparams.IndexListExpr and *ast.IndexListExpr are one dynamic type).
+func deepUnalias(t types.Type) types.Type {
+	t = types.Unalias(t)
+	switch u := t.(type) {
+	case *types.Pointer:
+		return types.NewPointer(deepUnalias(u.Elem()))
+	case *types.Slice:
+		return types.NewSlice(deepUnalias(u.Elem()))
+	case *types.Array:
+		return types.NewArray(deepUnalias(u.Elem()), u.Len())
+	case *types.Map:
+		return types.NewMap(deepUnalias(u.Key()), deepUnalias(u.Elem()))
+	case *types.Chan:
+		return types.NewChan(u.Dir(), deepUnalias(u.Elem()))
+	}
+	return t
 }
